@@ -100,6 +100,7 @@ theorem nextStep_sound {mem : Mem} (h : MemSound mem) (m : Meth) (s : Step) :
   | nometh => exact notOk_err _ (by decide)
   | linear _ _ => exact notOk_ok _
   | lookup _ _ _ => exact notOk_ok _
+  | custom _ _ _ _ => exact notOk_ok _
   | memarr t b sh es vs => exact nextMemarr_sound h t sh vs s
   | pgt t root pm pf =>
     show NotOkErr (nextStepPgt noExtra mem t pm pf s)
@@ -153,6 +154,15 @@ theorem firstStep_sound (m : Meth) (addr : Nat) : NotOkErr (firstStep m addr) :=
   | nometh => exact notOk_err _ (by decide)
   | linear _ _ => exact notOk_ok _
   | memarr _ _ _ _ _ => exact notOk_ok _
+  | custom t mask hit miss =>
+    simp only [firstStepCustom]
+    split
+    · exact notOk_ok _
+    · exact notOk_ok _
+    · rename_i st _
+      by_cases hst : st = .ok
+      · simp only [hst, if_true]; exact notOk_err _ (by decide)
+      · simp only [hst, if_false]; exact notOk_err _ hst
   | lookup t eo tb =>
     simp only []
     split
